@@ -131,17 +131,24 @@ func runC16(sc *c16Scenario) *Violation {
 	var mu sync.Mutex
 	type recov struct{ raw, val string }
 	var recovered []recov
+	var lateRecover func(*client.Conn, *client.Line)
 	tc := newTestClient(cliOpts{Flood: true, Configure: func(cfg *client.Config) {
 		if sc.CustomRecover {
-			cfg.Recover = func(c *client.Conn, l *client.Line) {
+			lateRecover = func(c *client.Conn, l *client.Line) {
 				if e := recover(); e != nil {
 					mu.Lock()
 					recovered = append(recovered, recov{l.Raw, fmt.Sprintf("%T", e)})
 					mu.Unlock()
 				}
 			}
+			if !sc.PanicDuringClose { // (reusing a drawn bit) half of the custom-recover cases configure it up front ...
+				cfg.Recover = lateRecover
+			}
 		}
 	}})
+	if sc.CustomRecover && sc.PanicDuringClose {
+		tc.C.Config().Recover = lateRecover // ... the others through Config() on the existing client
+	}
 	release := make(chan struct{})
 	released := false
 	defer func() {
